@@ -481,3 +481,30 @@ for _p, _anchors in ANCHORS.items():
     _files = sorted({f for f, _ in _anchors})
     CORPUS[_p].append(E("anchor files round-tripped through ast.unparse (comments dropped, all line numbers moved)",
                         *[(f, "@reformat", "") for f in _files]))
+
+
+# ---------------------------------------------------------------------------
+# whole-package robustness sweep: every function of one file renamed / commuted at once, for every property
+# (the checks read far more functions than their anchors; tools/robust_sweep.py runs the same sweep by hand)
+# ---------------------------------------------------------------------------
+def _package_files():
+    import ast as _ast
+    from ..src import repo_root as _rr
+    root = _rr() / "tdgl"
+    out = []
+    for p in sorted(root.rglob("*.py")):
+        if "test" in p.parts or p.name == "__init__.py":
+            continue
+        try:
+            t = _ast.parse(p.read_text())
+        except SyntaxError:
+            continue
+        if any(isinstance(n, (_ast.FunctionDef, _ast.ClassDef)) for n in t.body):
+            out.append(str(p.relative_to(root)))
+    return out
+
+
+for _f in _package_files():
+    for _p in CORPUS:
+        CORPUS[_p].append(E(f"sweep: locals of every function in {_f} renamed", (_f, "@rename_all", "")))
+        CORPUS[_p].append(E(f"sweep: products of every function in {_f} commuted", (_f, "@commute_all", "")))
